@@ -19,7 +19,8 @@ ASSUMPTIONS = ['the span list itself is C06\'s subject; here every returned pept
                'states whose spans cut strictly inside an interval are skipped (outside the quantifier)']
 
 RULES = ['trypsin', 'trypsin/P', 'lys-c', 'lys-n', 'asp-n', '([KR])']
-PROTEINS_Q = ['K', 'AK', 'KA', 'KP', 'DK', 'AKA', 'KAK', 'RKD', 'AKPR', 'KDKA', 'DAKR', 'AKRDA', 'KAAKP', 'ADKARK']
+PROTEINS_Q = ['K', 'AK', 'KA', 'KP', 'DK', 'AKA', 'KAK', 'RKD', 'AKPR', 'KDKA', 'DAKR', 'AKRDA', 'KAAKP', 'ADKARK',
+              'AKAKAK', 'KAKAKAR']   # tandem repeats: a missed-cleavage peptide overlaps its own next occurrence
 AXES = ['r0', 'r1', 'rmid', 'rlast', 'nterm', 'cterm', 'labile', 'static', 'isotope', 'iv']
 
 
@@ -61,7 +62,7 @@ def values_at(axis, level, n):
 
 
 def describe(tier):
-    return {'proteins': proteins(tier), 'rules': RULES, 'deviation_bound': 3, 'axes': AXES, 'mc': [0, 1, 2, 3]}
+    return {'proteins': proteins(tier), 'rules': RULES, 'deviation_bound': 3, 'axes': AXES, 'mc': [0, 1, 2, 3] if tier == 'thorough' else [0, 1, 2]}
 
 
 def axes_for(n):
@@ -88,7 +89,7 @@ def gen(shard, tier):
     seq = shard['seq']
     n = len(seq)
     for slots in space.dev_states(shard, lambda a, lv: values_at(a, lv, n)):
-        yield {'seq': seq, 'slots': slots}, shard['k'], shard['k'] > 0
+        yield {'seq': seq, 'slots': slots, 'mcs': [0, 1, 2, 3] if tier == 'thorough' else [0, 1, 2]}, shard['k'], shard['k'] > 0
 
 
 def build(seq, slots):
@@ -109,6 +110,14 @@ def build(seq, slots):
     if res:
         P['res'] = [[i, res[i]] for i in sorted(res)]
     return P
+
+
+def _reversed_fields(d):
+    if d.get('internal_mods'):
+        d['internal_mods'] = {k: d['internal_mods'][k] for k in sorted(d['internal_mods'], reverse=True)}
+    if d.get('intervals'):
+        d['intervals'] = list(reversed(d['intervals']))
+    return d
 
 
 FIELDS = ['sequence', 'internal', 'nterm', 'cterm', 'intervals', 'static', 'isotope']
@@ -153,9 +162,19 @@ def check(case, ctx):
             if pep_ann is not None and not (pa == pep_ann):
                 ctx.fail('string-vs-annotation', pep_ann.serialize(), pep_str, span=list(span), text=s, what=what)
 
+    # the same protein as an annotation object whose residue-modification map was filled in reverse order
+    st_r, a_rev = lib.call(lambda: p.create_annotation(**_reversed_fields(p.parse(s).dict())))
     for rule in RULES:
         sites = c06.ref_sites(P['seq'], rule)
-        for mc in (0, 1, 2, 3):
+        if st_r == 'ok':
+            for mc in (0, 1):
+                x1 = lib.call(lambda: list(p.digest(s, rule, missed_cleavages=mc)))
+                x2 = lib.call(lambda: list(p.digest(a_rev, rule, missed_cleavages=mc)))
+                ctx.evals += 2
+                if x1[0] != x2[0] or (x1[0] == 'ok' and x1[1] != x2[1]):
+                    ctx.fail('annotation-input-order', x1[1], x2[1], call=['digest', s, rule, mc],
+                             note='annotation built with internal_mods inserted in descending order')
+        for mc in case.get('mcs', (0, 1, 2, 3)):
             for semi in (False, True):
                 if semi and (has_iv or mc > 1):
                     continue
